@@ -46,6 +46,7 @@ MIN_REACH = {
     "histograms_compared": {"quick": 120, "thorough": 1200},
     "heatmap_cells_compared": {"quick": 300, "thorough": 5000},
     "slices_holding_infinite_values": {"quick": 30, "thorough": 500},
+    "slices_whose_values_are_all_exactly_zero": {"quick": 10, "thorough": 150},
     "figures_drawn_on_axes_given_by_the_caller": {"quick": 30, "thorough": 500},
 }
 TIME_BUDGET = {"quick": 500, "thorough": 3400}
@@ -165,6 +166,17 @@ def build(case):
             if np.isnan(sl).all():
                 sl[0] = -np.inf
             y[tuple(idx)] = sl
+    if case["mode"] in ("lines", "hist") and dims and case["dseed"] % 7 == 3:
+        # one slice whose values are all EXACTLY zero (a vanishing order parameter, zero counts; signed zeros): data like any other
+        idx = [slice(None)] * len(alld)
+        for d in dims:
+            idx[alld.index(d)] = int(rng.integers(0, case["sizes"][d]))
+        sl = y[tuple(idx)]
+        sl[~np.isnan(sl)] = 0.0
+        if np.isnan(sl).all():
+            sl[:] = 0.0
+        sl[::2] *= -1.0
+        y[tuple(idx)] = sl
     data = {"y": (tuple(alld), y)}
     if case["mode"] == "hist":
         v_ = y * 2.0
@@ -440,6 +452,8 @@ def run_case(ctx, case):
                         ctx.count("slices_holding_infinite_values")
                     if not m.any():
                         continue
+                    if (mode == "lines" and not np.any(yv[m])) or (mode == "hist" and not np.any(vals[np.isfinite(vals)])):
+                        ctx.count("slices_whose_values_are_all_exactly_zero")
                     if (mode == "lines" and case["join"]):
                         xv, yv = xv[m], yv[m]
                     exp.setdefault(arr_key(yv, approx), []).append((loc, xv, yv, sub))
